@@ -38,6 +38,8 @@ def render_item(it):
     if k == "num":
         return render_word(it["v"])
     if k == "str":
+        if it.get("raw"):
+            return '"' + bytes(it["b"]).decode("latin-1") + '"'
         return render_str(it["b"])
     if k == "sym":
         return it["n"]
